@@ -817,6 +817,25 @@ class AndComparison(SimpleComparison):
         if self.invert is not None:
             olen = len(self.ebpf.opcodes)
             assert self.ebpf.opcodes[self.invert].opcode == Opcode.JMP
+            # the else block is moved in front of the block: jumps from
+            # earlier code into this region (as the one of an enclosing
+            # else-if chain) have to follow
+            moved = olen - self.else_origin - 1
+            for i, ins in enumerate(self.ebpf.opcodes[:self.invert]):
+                if ins is None or ins.opcode.value & 7 not in (5, 6) \
+                        or ins.opcode.value in (0x85, 0x95):
+                    continue
+                target = i + 1 + ins.off
+                if target < self.invert:
+                    continue
+                elif target < self.else_origin:
+                    target += moved
+                elif target == self.else_origin or target == olen:
+                    target = olen - 1
+                else:
+                    target -= self.else_origin + 1 - self.invert
+                self.ebpf.opcodes[i] = Instruction(
+                    ins.opcode, ins.dst, ins.src, target - i - 1, ins.imm)
             self.ebpf.opcodes[self.invert:self.invert] = \
                     self.ebpf.opcodes[self.else_origin+1:]
             del self.ebpf.opcodes[olen-1:]
